@@ -139,6 +139,52 @@ def gen_supburst(rng):
     return {"actors": actors, "msgs": msgs, "ops": ops}
 
 
+def gen_abort_in_post_stop(rng):
+    """A supervisor with a custom supervision handler that does not stop itself, and children whose
+    post_stop parks at a gate: each child is stopped / drained (now suspended inside post_stop, status
+    Stopping) and then its task is aborted.  The living, idle supervisor must get exactly one
+    ActorTerminated(.., no state, "actor_task_cancelled") per child (seeded regression C04-1: the
+    guard's Drop skipped the event once the status had reached Stopping)."""
+    n = rng.choice([2, 2, 3])
+    gates = [1]
+    sup_script = ([("t",)] * rng.choice([0, 1, 2]), ("ok",))
+    actors = [{"pre": ([], ("ok",)), "ps": ([], ("ok",)), "stop": ([("t",)], ("ok",)), "sup": sup_script, "link": None}]
+    child_gate = {}
+    for i in range(1, n):
+        g = gates[0]
+        gates[0] += 1
+        child_gate[i] = g
+        actors.append({"pre": ([("t",)] * rng.choice([0, 1]), ("ok",)),
+                       "ps": ([("t",)] * rng.choice([0, 1]), ("ok",)),
+                       "stop": ([("g", g)] + [("t",)] * rng.choice([0, 1, 2]), ("ok",)),
+                       "sup": None, "link": 0})
+    msgs = {m: gen_script(rng, 0, n, gates, allow_fail=False, rich=False, min_msg=m) for m in (1, 2, 3, 4)}
+    ops = [("spawn", 0), ("settle",)]
+    for i in range(1, n):
+        ops.append(("spawn", i))
+        if rng.random() < 0.6:
+            ops.append(("settle",))
+    ops.append(("settle",))
+    for g in range(n, gates[0]):       # gates of the message scripts
+        ops.append(("open", g))
+    for i in range(1, n):
+        ops.append(rng.choice([("stop", i, None), ("stop", i, 10), ("drain", i)]))
+        if rng.random() < 0.5:
+            ops.append(("settle",))
+    ops.append(("settle",))
+    # every child is now parked inside post_stop
+    victims = [i for i in range(1, n) if rng.random() < 0.8] or [1]
+    for i in victims:
+        ops.append(("abort", i))
+        ops.append(("settle",))
+    if rng.random() < 0.5:
+        ops.append(("send", 0, rng.choice([1, 2])))
+    for i in range(1, n):
+        ops.append(("open", child_gate[i]))
+    ops.append(("settle",))
+    return {"actors": actors, "msgs": msgs, "ops": ops}
+
+
 # ------------------------------------------------------------------ rendering
 
 def eff_line(e):
@@ -226,6 +272,10 @@ def world_coq(sc, local=False):
 
 def ops_coq(sc):
     return "[" + "; ".join(op_coq(o) for o in sc["ops"]) + "]"
+
+
+def links_only_coq(sc):
+    return "[" + "; ".join(onat(a["link"]) for a in sc["actors"]) + "]"
 
 
 def orders(n, full=False):
@@ -364,11 +414,16 @@ def is_linked(sc):
     return any(a["link"] is not None for a in sc["actors"])
 
 
-def compare_build(chk, scs, build, tag, oracle_fn, accept, what, distinct, mode="send"):
+def compare_build(chk, scs, build, tag, oracle_fn, accept, what, distinct, mode="send", complete_fn=None):
     """every scenario is judged by the oracle and compared with the model; in the local modes
     (thread-local hosts, see eng_world.rs) the model is run with c_local = true for every actor
     (coq/Loop/World.v: link before pre_start, no state in ActorTerminated) and the order
-    insensitivity is checked over ALL round-robin orders."""
+    insensitivity is checked over ALL round-robin orders.
+    complete_fn(links, trace_expr) -> Coq bool expression: an "at least once" oracle for settled traces
+    (C04: check_C04_complete).  It is evaluated on the implementation's trace AND on the model's own
+    trace of the same scenario; an implementation trace it rejects is a violation (failing input) only
+    if the model's own trace is accepted - otherwise the oracle does not apply to that scenario
+    (counted as complete_oracle_inapplicable, never an alarm)."""
     shrunk = False
     compared = discarded = 0
     local = mode != "send"
@@ -378,7 +433,12 @@ def compare_build(chk, scs, build, tag, oracle_fn, accept, what, distinct, mode=
     with_model = [True for sc in scs]
     for sc, it, wm in zip(scs, impl, with_model):
         n = len(sc["actors"])
-        if wm:
+        if wm and complete_fn:
+            lk = links_only_coq(sc)
+            ms = "; ".join(f"(let tm := {model_expr(sc, o, local)} in (tm, {complete_fn(lk, 'tm')}))"
+                           for o in orders(n, full=local))
+            exprs.append(f"([{ms}], (let ti := {it} in ({oracle_fn(n, links_coq(sc, mode), 'ti')}, {complete_fn(lk, 'ti')})))")
+        elif wm:
             ms = ", ".join(model_expr(sc, o, local) for o in orders(n, full=local))
             exprs.append(f"({ms}, {oracle_fn(n, links_coq(sc, mode), it)})")
         else:
@@ -388,6 +448,11 @@ def compare_build(chk, scs, build, tag, oracle_fn, accept, what, distinct, mode=
         n = len(sc["actors"])
         t = parse_term(r)
         models, oracle = (t[1:-1] if wm else []), t[-1]
+        mcomplete, icomplete = None, None
+        if wm and complete_fn:
+            mcomplete = [m[2] == "true" for m in t[1]]
+            models = [m[1] for m in t[1]]
+            oracle, icomplete = t[2][1], t[2][2] == "true"
         itr = parse_term(it)
         chk.coverage["evaluations"] += 1
         ph = phase_reached(itr)
@@ -422,6 +487,21 @@ def compare_build(chk, scs, build, tag, oracle_fn, accept, what, distinct, mode=
             chk.count(pre + ("model_compared_linked" if is_linked(sc) else "model_compared_unlinked"))
         vs = [per_actor(m, n) for m in models]
         v1 = vs[0]
+        if icomplete is False:
+            # the "at least once" oracle rejects the implementation's trace: which model run is "the same run"?
+            same = [k for k, v in enumerate(vs) if v == vi]
+            ref = same if same else (list(range(len(vs))) if all(v == v1 for v in vs) else [])
+            if ref and all(mcomplete[k] for k in ref):
+                desc["model_trace_accepted_by_complete_oracle"] = True
+                chk.violation(f"{what}: a supervision event is missing (the at-least-once oracle rejects the implementation's settled trace and accepts the model's)",
+                              f"{chk.prop} at-least-once oracle rejects the implementation trace (a started child has ended, its supervisor is alive and idle, and has handled no terminal event about it)\n"
+                              + json.dumps(desc, indent=1) + f"\nbuild: {tag}" + "\nreplay: echo '<scenario>' | harness/target/debug/eng_world\n")
+                continue
+            chk.count(pre + ("complete_oracle_inapplicable" if ref else "complete_oracle_unjudged_order_sensitive"))
+            if ref and len(chk.coverage.setdefault("complete_inapplicable_samples", [])) < 3:
+                chk.coverage["complete_inapplicable_samples"].append({"scenario": to_line(sc, mode), "impl_trace": it})
+        elif icomplete:
+            chk.count(pre + "complete_oracle_accepts")
         if not all(v == v1 for v in vs):
             # the outcome depends on the poll order of different actors inside one settle window:
             # the implementation's scheduler picks one order; it is compared only if it coincides
@@ -455,7 +535,9 @@ def compare_build(chk, scs, build, tag, oracle_fn, accept, what, distinct, mode=
 def gen_local(rng, k, focus):
     """scenarios for the thread-local hosts: 3 of 5 without any spawn-link, the rest spawn-linked
     trees and supervision bursts (all compared with the model, c_local = true)"""
-    if k % 5 < 3:
+    if k % 8 == 7:
+        sc = gen_abort_in_post_stop(rng)
+    elif k % 5 < 3:
         sc = gen_scenario(rng, focus if k % 2 else "mixed", link_p=0.0)
     elif k % 5 == 3:
         sc = gen_scenario(rng, focus if k % 2 else "mixed")
@@ -475,7 +557,7 @@ def gen_local(rng, k, focus):
     return sc
 
 
-def run_loop_check(chk, oracle_fn, focus, what, accept=lambda o: o == "true"):
+def run_loop_check(chk, oracle_fn, focus, what, accept=lambda o: o == "true", complete_fn=None):
     """oracle_fn(n, links, impl_trace_coq) -> Coq expression; accept(parsed value) -> bool.
     (`links` is the string "<links> <locals>", see links_coq.)
     quick: default feature build; thorough: also the `async-trait` build of ractor (same scenarios).
@@ -500,7 +582,9 @@ def run_loop_check(chk, oracle_fn, focus, what, accept=lambda o: o == "true"):
                 (scs if m == "send" else lscs[m]).append(c)
     ncorpus = len(scs) + sum(len(v) for v in lscs.values())
     for k in range(n_cases):
-        if k % 5 == 4:
+        if k % 8 == 7:
+            scs.append(gen_abort_in_post_stop(chk.rng))
+        elif k % 5 == 4:
             scs.append(gen_supburst(chk.rng))
         else:
             scs.append(gen_scenario(chk.rng, focus if k % 2 else "mixed"))
@@ -531,11 +615,11 @@ def run_loop_check(chk, oracle_fn, focus, what, accept=lambda o: o == "true"):
                           "correspondence E1:eng_world cannot be built against the current tree\n" + build["log"][-3000:],
                           failing_input=False)
             return chk.finish(trusted_base=TRUSTED)
-        c, d = compare_build(chk, scs, build, tag, oracle_fn, accept, what, distinct)
+        c, d = compare_build(chk, scs, build, tag, oracle_fn, accept, what, distinct, complete_fn=complete_fn)
         compared += c
         discarded += d
         for m in MODES[1:]:
-            c, d = compare_build(chk, lscs[m], build, tag, oracle_fn, accept, what, distinct, mode=m)
+            c, d = compare_build(chk, lscs[m], build, tag, oracle_fn, accept, what, distinct, mode=m, complete_fn=complete_fn)
             compared += c
             discarded += d
     chk.coverage["traces_validated_against_impl"] = compared
@@ -543,7 +627,8 @@ def run_loop_check(chk, oracle_fn, focus, what, accept=lambda o: o == "true"):
     chk.coverage["corpus"] = ncorpus
     chk.coverage["distinct_nontrivial"] = len(distinct)
     chk.coverage["rule"] = ("seeded random worlds of 1-4 scripted actors (spawn-linked trees), scripts with gates/ticks/"
-                            "send/stop/kill/drain, failing callbacks, driver programs with settles, aborts and bursts; "
+                            "send/stop/kill/drain, failing callbacks, driver programs with settles, aborts and bursts; 1 in 8: children aborted "
+                            "while suspended inside post_stop under a supervisor that stays alive; "
                             "non-trivial = the trace reaches at least 3 distinct phases (callback kinds, cancel, park, abort, failure); "
                             "distinct = distinct per-actor views; "
                             "thread-local hosts: per build and per local mode (adapter / native) the same kind of worlds on one "
